@@ -242,8 +242,17 @@ struct C19 : Scenario {
 			for (int dd = 0; dd < depth; ++dd) path += printable_name(rng, 8) + "/";
 			if (m.kind == 'd' && path.empty()) path = printable_name(rng, 8) + "/";
 			std::string name = m.kind == 'd' ? "" : printable_name(rng, rng.chance(1, 12) ? 120 : 12);
+			if (m.kind == 'f' && rng.chance(1, 60)) {
+				// a name longer than PATH_MAX (legal through extended headers)
+				m.level = 2 + (int) rng.below(2);
+				name = printable_name(rng, 8);
+				size_t want = 4000 + rng.below(1200);
+				while (name.size() < want) name += printable_name(rng, 40);
+				name += rng.chance(1, 2) ? ".txt" : "";
+				p.sets("longname", "1");
+			}
 			// keep level-0/1 in-header names within the one-byte length field
-			if ((path + name).size() > 180) { if (name.size() > 40) name = name.substr(0, 40); if ((path + name).size() > 180) path = m.kind == 'd' ? path.substr(0, 60) + "/" : ""; }
+			if ((path + name).size() > 180 && name.size() < 3000) { if (name.size() > 40) name = name.substr(0, 40); if ((path + name).size() > 180) path = m.kind == 'd' ? path.substr(0, 60) + "/" : ""; }
 			std::string target = m.kind == 'l' ? (rng.chance(1, 3) ? "../" : "") + printable_name(rng, 10) : "";
 			m.gpath = path; m.gname = name; m.gtarget = target;
 			static const uint8_t oss[] = {'M', 'w', 'W', 'U', '2', 'C', 'm', 'J', 'F', 'R', 'T', '9', 'K', '3', 'H', 'a', 'A', 0, 'x', 0x7e, '!'};
@@ -264,6 +273,15 @@ struct C19 : Scenario {
 			for (auto &b : m.data) b = rng.byte();
 			m.plain.clear();
 			m.orig = m.kind == 'f' ? (int64_t) orig : 0;
+			if (m.kind != 'f' && rng.chance(1, 5)) {
+				// a directory or symlink header may carry size fields (and skipped data) as well; totals are sums of rows
+				size_t dl2 = rng.below(12);
+				m.data.resize(dl2);
+				for (auto &b : m.data) b = rng.byte();
+				dl = dl2;
+				uint64_t o2 = rng.below(100000);
+				if (sum_orig + o2 < (1ULL << 32)) { m.orig = (int64_t) o2; orig = o2; } else orig = 0;
+			}
 			m.crc = (int64_t) rng.below(65536);
 			uint64_t packed = dl;
 			if (i == n - 1 && m.kind == 'f' && rng.chance(1, 3)) {
@@ -328,7 +346,7 @@ struct C19 : Scenario {
 				m.gos9 = os9;
 			}
 			if (m.level >= 2 && rng.chance(1, 3)) { ExtHdr e; e.type = 0; e.data = {0, 0}; e.auto_crc = true; m.ext.push_back(e); }
-			sum_orig += m.kind == 'f' ? orig : 0;
+			sum_orig += m.kind == 'f' ? orig : (m.orig > 0 ? (uint64_t) m.orig : 0);
 			sum_packed += packed;
 			p.members.push_back(m);
 		}
@@ -349,8 +367,12 @@ struct C19 : Scenario {
 				case 4: { pat = full; for (auto &ch : pat) if (ch >= 'a' && ch <= 'z') { ch = (char)(ch - 32); break; } break; }
 				default: pat = "*" + full.substr(rng.below(full.size() + 1)); break;
 			}
+			// very long names only meet simple patterns: the tool's matcher backtracks (polynomial in the name length with the
+			// number of stars as exponent), which is the user's own doing, not the archive's
+			bool anylong = p.gets("longname") == "1";
+			if (anylong) pat = full.size() > 3000 ? (rng.chance(1, 2) ? "*" + full.substr(full.size() - 4) : full.substr(0, 4095)) : (rng.chance(1, 2) ? full : "*");
 			// runs of stars, stars that must match the empty string, stars next to '?'
-			switch (rng.below(8)) {
+			switch (anylong ? 7 : rng.below(8)) {
 				case 0: pat += "**"; break;
 				case 1: pat = "**" + pat; break;
 				case 2: if (!pat.empty()) pat.insert(rng.below(pat.size() + 1), "*"); break;
@@ -434,6 +456,7 @@ struct C18 : Scenario {
 	}
 	static Bytes hostile_str(Rng &rng, int maxlen, bool allow_sep) {
 		int n = 1 + (int) rng.below((uint64_t) maxlen);
+		if (maxlen >= 8 && rng.chance(1, 12)) n = 200 + (int) rng.below(150);   // long enough to leave any fixed-size fast path
 		Bytes b;
 		for (int i = 0; i < n; ++i) {
 			uint8_t c;
@@ -509,6 +532,16 @@ struct C18 : Scenario {
 			p.argv.push_back(rng.chance(1, 2) ? "*" : full);
 		}
 		p.seti("euid", rng.chance(1, 2) ? 0 : 1000);
+		// level 0/1 base headers cannot hold the long strings: move such members to level 2
+		for (auto &m : p.members) if (m.level <= 1 && (m.inname.size() > 150 || (m.gpath + m.gname + m.gtarget).size() > 150)) {
+			Member n2 = m;
+			n2.level = 2; n2.inname.clear(); n2.l0ext.clear(); n2.ext.clear();
+			encode_names(n2, m.gpath, m.kind == 'l' ? m.gname + "|" + m.gtarget : m.gname);
+			encode_unix_meta(n2, m.kind == 'l' ? 0120777 : -1, -1, -1, 1000000000, 0, false);
+			m = n2;
+		}
+		// (the tool does not check the results of creating its stream and reader: start-up under OOM is outside every listed property)
+		if (rng.chance(1, 4)) p.seti("afail", 3 + (int64_t) rng.below(60));
 		return p;
 	}
 	RunResult execute(const Plan &p, Plan *) override {
@@ -518,6 +551,7 @@ struct C18 : Scenario {
 		CliEnv env(p);
 		g_sim.budget = 100000 + 64 * a.bytes.size();
 		CliResult r = env.run(p, a.bytes);
+		if (g_sim.fail_fired) count("fault.A-FAIL");
 		if (r.budget) { res.fail("C18.budget", "budget", "command did not finish within the step budget"); res.trace = finish_trace(); return res; }
 		trace_str(r.out);
 		trace_str(r.err);
